@@ -223,8 +223,38 @@ def snap_real_raw(E, terms, cap=20000):
         return ('cyclic',)
 
 
+class DeepKey:
+    """a host value whose == is Python code that needs several stack frames (a nested record, a path, a fraction ...)"""
+    __slots__ = ('n', 'inner')
+
+    def __init__(self, n, inner=None):
+        self.n = n
+        self.inner = inner
+
+    def __eq__(self, other):
+        return isinstance(other, DeepKey) and self.n == other.n and self.inner == other.inner
+
+    def __hash__(self):
+        return hash(self.n)
+
+    def __repr__(self):
+        d = 0
+        x = self
+        while x is not None:
+            d += 1
+            x = x.inner
+        return 'DeepKey(%d,depth=%d)' % (self.n, d)
+
+
+def _deep(n, depth):
+    k = None
+    for _ in range(depth):
+        k = DeepKey(n, k)
+    return k
+
+
 # other Python constants as terms (API level only), keyed by their repr as snap_real reports them
-PYCONST = {repr(x): x for x in (None, 2.5, -0.5, b'a', (), (1, 2))}
+PYCONST = {repr(x): x for x in (None, 2.5, -0.5, b'a', (), (1, 2), _deep(1, 12), _deep(2, 12), _deep(3, 12))}
 
 
 def build_real(yp, t, vmap, atomf=None):
@@ -273,6 +303,8 @@ def rterm(t, rng=None):
         return t[1]
     if k == 's':
         raise ValueError('python string constants have no source form')
+    if k == 'py':
+        return "'<host value %s>'" % t[1].replace("'", '')
     name, args = t[1], t[2]
     if name == '.' and len(args) == 2:
         items = []
